@@ -349,6 +349,7 @@ package dig
 //@ pure func scopeOf(c Any) *Scope = as(c, ptr(Scope))
 
 //@ func (s *Scope) storesToRoot() (r)
+//@   loop range scopes #1: complete[C08:every-ancestor-becomes-a-store]
 //@   requires s != nil
 //@   allocates
 //@   ensures[C08:stores-are-the-ancestor-chain] len(r) == s.nanc && (forall i int :: 0 <= i && i < len(r) ==> isScope(r[i]) && scopeOf(r[i]) == s.anc[i])
@@ -532,6 +533,7 @@ package dig
 //@   ensures[C04:missing-type-names-the-key] len(e) == 1 && e[0].Key == k && fresh(e)
 
 //@ func (s *Scope) getProviders(k) (r)
+//@   loop range nodes #1: complete[C09:every-provider-returned]
 //@   requires s != nil
 //@   allocates
 //@   ensures[C09:providers-of-exactly-this-key] len(r) == len(s.providers[k]) && (forall i int :: 0 <= i && i < len(r) ==> r[i] == s.providers[k][i])
@@ -553,6 +555,7 @@ package dig
 //@   site call (dig.param).Build #1: assert[C15:field-builds-its-own-param] $recv == pof.Param && $arg0 == c
 
 //@ func (po paramObject) Build(c) (v, err)
+//@   loop range po.Fields #1: complete[C15:every-field-queued,C11:every-field-queued]
 //@   requires isScope(c) && po.Type != nil && kind(po.Type) == kStruct()
 //@   requires forall j int :: 0 <= j && j < len(po.Fields) ==> okField(po.Fields[j], po.Type)
 //@   modifies @knot
@@ -649,6 +652,7 @@ package dig
 //@   ensures fresh(r) || len(r) == 0
 
 //@ func (pt paramGroupedSlice) Build(c) (v, err)
+//@   loop range stores #1: complete[C10:every-enclosing-scope-is-read,C11:every-enclosing-scope-is-read,C08:every-enclosing-scope-is-read]
 //@   requires isScope(c) && pt.Type != nil && kind(pt.Type) == kSlice()
 //@   modifies @knot
 //@   allocates
@@ -689,6 +693,7 @@ package dig
 //@   && (forall k2 key :: k2 in cwGroups(cw) && !old(k2 in cwGroups(cw)) ==> k2.name == "")
 
 //@ func (rs resultSingle) Extract(cw, decorated, v) ()
+//@   loop range rs.As #1: complete[C09:every-as-type-receives-the-value]
 //@   requires wfWriter(cw) && (is(cw, ptr(stagingContainerWriter)) ==> !decorated)
 //@   modifies @written
 //@   allocates
@@ -730,6 +735,7 @@ package dig
 //@   ensures[C07:stage-writes-own-map] forall m map[key][]reflect.Value :: existed(m) && m != sr.groups ==> mapeq(m)
 
 //@ func (rt resultGrouped) Extract(cw, decorated, v) ()
+//@   loop range rt.As #1: complete[C10:every-as-group-receives-the-member]
 //@   requires wfWriter(cw) && (is(cw, ptr(stagingContainerWriter)) ==> !decorated)
 //@   requires rt.Flatten && !decorated ==> valid(v) && kind(typ(v)) == kSlice()
 //@   modifies @written
@@ -759,6 +765,7 @@ package dig
 //@   site call (dig.containerWriter).submitGroupedValue #3: assert[C10:flatten-submits-element-i] $arg2 == vindex(v, i) && $arg0 == rt.Group && $arg1 == rt.Type
 
 //@ func (ro resultObject) Extract(cw, decorated, v) ()
+//@   loop range ro.Fields #1: complete[C15:every-result-field-extracted,C01:every-result-field-extracted]
 //@   requires wfWriter(cw) && (is(cw, ptr(stagingContainerWriter)) ==> !decorated)
 //@   requires forall j int :: 0 <= j && j < len(ro.Fields) ==> ro.Fields[j].Result != nil && !is(ro.Fields[j].Result, resultList)
 //@   modifies @written
@@ -770,6 +777,9 @@ package dig
 //@   site call (reflect.Value).Field #1: assert[C15:result-field-by-field-index] $recv == v && $arg0 == ro.Fields[$i].FieldIndex
 
 //@ func (sr *stagingContainerWriter) Commit(cw) ()
+//@   loop range vs #1: complete[C10:every-staged-member-committed]
+//@   loop range sr.groups #1: complete[C10:every-staged-group-committed]
+//@   loop range sr.values #1: complete[C01:every-staged-value-committed,C07:every-staged-value-committed]
 //@   requires sr != nil && wfWriter(cw) && is(cw, ptr(Scope))
 //@   requires (forall k key :: k in sr.values ==> k.group == "") && (forall k key :: k in sr.groups ==> k.name == "")
 //@   requires as(cw, ptr(Scope)).values != sr.values && as(cw, ptr(Scope)).decoratedValues != sr.values && as(cw, ptr(Scope)).decoratedGroups != sr.values && as(cw, ptr(Scope)).groups != sr.groups
@@ -812,6 +822,7 @@ package dig
 //@     && (is(s.gh.nodes[j].Wrapped, ptr(paramGroupedSlice)) ==> as(s.gh.nodes[j].Wrapped, ptr(paramGroupedSlice)) != nil && as(s.gh.nodes[j].Wrapped, ptr(paramGroupedSlice)).orders != nil)
 
 //@ func (s *Scope) Scope(name, opts) (child)
+//@   loop range s.gh.nodes #1: complete[C16:every-graph-node-copied,C05:every-graph-node-copied]
 //@   requires s != nil && graphNodesOK(s) && treeInv()
 //@   ensures[C08:tree-links-kept,C16:tree-links-kept] childrenLinked() && childListsSeparate() && registriesSeparate() && decoratorMapsSeparate()
 //@   ensures[C16:graph-stores-kept-separate,C05:graph-stores-kept-separate] graphsSeparate()
@@ -905,6 +916,7 @@ package dig
 //@     && (forall a *graphHolder :: { a.nodes } allocated(a) ==> a.nodes.arr <= $alloc && (cap(a.nodes) > 0 ==> a.nodes.arr > 0))
 
 //@ func (s *Scope) newGraphNode(wrapped, orders) ()
+//@   loop range s.childScopes #1: complete[C16:every-child-visited,C05:every-child-visited,C08:every-child-visited]
 //@   requires s != nil && orders != nil && treeInv()
 //@   modifies graphHolder.nodes, elems(*graphNode), map(constructorNode.orders)
 //@   allocates
@@ -984,6 +996,7 @@ package dig
 //@ pure func notAChildList(d []*Scope) Bool = d.arr == 0 || (forall y *Scope :: { y.childScopes } allocated(y) ==> y.childScopes.arr != d.arr)
 
 //@ func (s *Scope) appendSubscopes(dest0) (r)
+//@   loop range s.childScopes #1: complete[C06:every-child-listed,C05:every-child-listed]
 //@   requires s != nil && treeInv() && notAChildList(dest0)
 //@   modifies elems(*Scope)
 //@   allocates
@@ -1009,6 +1022,9 @@ package dig
 //@   ensures treeInv()
 
 //@ func (s0 *Scope) provide(ctor, opts) (err)
+//@   loop range oldProviders #1: complete[C06:every-key-restored]
+//@   loop range keys #1: complete[C09:registered-under-every-key,C06:registered-under-every-key]
+//@   loop range allScopes #1: complete[C06:every-listed-scope-snapshotted,C05:every-listed-scope-snapshotted]
 //@   requires s0 != nil && ctor != nil && kind(typeOf(ctor)) == kFunc()
 //@   requires treeInv()
 //@   modifies map(Scope.providers), Scope.nodes, elems(*constructorNode), Scope.isVerifiedAcyclic, graphHolder.nodes, graphHolder.snap, elems(*graphNode), map(constructorNode.orders), elems(*Scope)
@@ -1080,6 +1096,7 @@ package dig
 //@   ensures treeInv()
 
 //@ func (s *Scope) Decorate(decorator, opts) (err)
+//@   loop range keys #2: complete[C12:registered-for-every-key]
 //@   requires s != nil && treeInv()
 //@   requires forall i int :: 0 <= i && i < len(opts) ==> opts[i] != nil
 //@   modifies map(Scope.decorators), graphHolder.nodes, elems(*graphNode), map(constructorNode.orders), DecorateInfo.ID, DecorateInfo.Inputs, DecorateInfo.Outputs
